@@ -490,14 +490,15 @@ Definition ensure_pg (w : world) : world :=
   | _, _ => w
   end.
 
-(* After initJobStatus the local `job` of syncJob IS the object just stored in
-   the job cache (initJobStatus returns what it handed to cc.cache.Update), so
-   the assignments to job.Status before the final UpdateStatus land in the
-   cache even when that call fails. *)
-Definition leak (w : world) (init : bool) (s : status) : world :=
-  if init then set_st w (w_st w) s else w.
+(* Before "fix: initJobStatus returns a copy of the job it stored in the job
+   cache" the local `job` of syncJob WAS the object just stored in the job cache,
+   so the assignments to job.Status before the final UpdateStatus landed in the
+   cache even when that call failed ([fixed = false]).  After the fix nothing
+   reaches the cache without a successful update. *)
+Definition leak (fixed : bool) (w : world) (init : bool) (s : status) : world :=
+  if fixed then w else if init then set_st w (w_st w) s else w.
 
-Definition sync_job (w : world) (u : updfn) (F : list fault) : world * bool * bool :=
+Definition sync_job_gen (fixed : bool) (w : world) (u : updfn) (F : list fault) : world * bool * bool :=
   let sp0 := v_spec w in   (* the spec of the job object the state closure holds (ps.job.Job) *)
   (* initiateJob / initJobStatus *)
   let init := phase_beq (st_phase (v_st w)) PhNone in
@@ -514,7 +515,7 @@ Definition sync_job (w : world) (u : updfn) (F : list fault) : world * bool * bo
     if negb (pg_admitted (v_pg w1)) then
       let s' := apply_upd u sp0 js in
       if status_eq_dec s' js then (w1, false, init)
-      else if fails_status F nstat then (leak w1 init s', true, init)
+      else if fails_status F nstat then (leak fixed w1 init s', true, init)
       else (write w1 s', false, true)
     else
       let a := sync_pods sp (v_pods w1) (w_pods w1) F in
@@ -524,8 +525,10 @@ Definition sync_job (w : world) (u : updfn) (F : list fault) : world * bool * bo
         let ns := mkStatus (st_phase js) (st_retry js) (st_version js) (s_min sp) (a_cnt a) (a_term a) (a_tsc a) false false in
         let s' := apply_upd u sp0 ns in
         if status_eq_dec js s' then (w2, false, init)
-        else if fails_status F nstat then (leak w2 init s', true, init)
+        else if fails_status F nstat then (leak fixed w2 init s', true, init)
         else (write w2 s', false, true).
+Definition sync_job := sync_job_gen true.
+Definition sync_job_prefix := sync_job_gen false.
 
 (* ---------- processNextReq ---------- *)
 Definition step_req (w : world) (r : req) (F : list fault) : world * bool * bool :=
